@@ -94,8 +94,66 @@ func (fr *Frame) callStatic(fn *ssa.Function, args []Val, st *State, pos token.P
 		vc.assumptions["model:"+full] = true
 		return TV(vc.specApp(mf, args, st)), st
 	}
+	// An external function that cannot reach package memory through its
+	// arguments (basic values, boxed basic values, external objects) is
+	// over-approximated: arbitrary results, may panic, no visible effect.
+	if fn.Pkg != L.SSA && site != nil && externalArgsHarmless(site.Common()) {
+		vc.assumptions["unmodelled external call "+full+": arbitrary results, no effect on modelled memory (its arguments cannot reach package objects)"] = true
+		var results []Val
+		rs := fn.Signature.Results()
+		for i := 0; i < rs.Len(); i++ {
+			t := rs.At(i).Type()
+			r := vc.Fresh("ext", vc.specialSort(t))
+			if wf := vc.wfValue(r, t, st); wf.S != "true" {
+				st.Assume(wf)
+			}
+			results = append(results, TV(r))
+		}
+		pb := vc.Fresh("extpanics", SBool)
+		ps := st.Clone()
+		ps.Assume(pb)
+		pv := vc.Fresh("panicval", SIface)
+		ps.Assume(Not(Eq(App(SInt, "itag", pv), IntLit(0))))
+		fr.raise(ps, pv, pos, "panic in unmodelled external call "+full)
+		st.Assume(Not(pb))
+		switch len(results) {
+		case 0:
+			return Val{}, st
+		case 1:
+			return results[0], st
+		}
+		return Val{Tuple: results}, st
+	}
 	fail("%s: call of %s has no contract or model", vc.posOf(pos), full)
 	return Val{}, nil
+}
+
+func externalArgsHarmless(com *ssa.CallCommon) bool {
+	basicOrExternal := func(t types.Type) bool {
+		switch u := t.Underlying().(type) {
+		case *types.Basic:
+			return true
+		case *types.Pointer:
+			if n, ok := u.Elem().(*types.Named); ok && n.Obj().Pkg() != nil && n.Obj().Pkg().Path() != pkgPath {
+				// pointer to an object of a foreign package (sync.Map, sync.Pool, ...)
+				return !strings.HasPrefix(n.Obj().Pkg().Path(), "net/http")
+			}
+		}
+		return false
+	}
+	for _, a := range com.Args {
+		if basicOrExternal(a.Type()) {
+			continue
+		}
+		if mi, ok := a.(*ssa.MakeInterface); ok && basicOrExternal(mi.X.Type()) {
+			continue
+		}
+		if c, ok := a.(*ssa.Const); ok && c.Value == nil {
+			continue
+		}
+		return false
+	}
+	return true
 }
 
 // extContract finds `ext:<func>/<dynamic type of the first interface argument>` or `ext:<func>`.
@@ -1217,7 +1275,9 @@ func (fr *Frame) callContract(fn *ssa.Function, ct *Contract, args []Val, st *St
 		for _, cl := range vc.ct.CallSites[rel] {
 			g := fr.evalCallSite(cl, vc.funcValue(fn), args, st)
 			vc.callCount++
+			vc.curClauseProps = cl.Props
 			vc.Oblige("callsite", fmt.Sprintf("%s#%d.%s", fn.Name(), vc.callCount, cl.Label), pos, st, g, cl.Src)
+			vc.curClauseProps = nil
 		}
 	}
 	return fr.callByContract(rel, fn.Name(), ct, fn.Signature.Results(), mk, st, pos)
